@@ -1466,7 +1466,38 @@ def gen_bit_hash(g, tier, h):
             add_hash_item(g, h, 0, tg, "%s/bits" % name, hoff=j % 4, bits=bits)
 
 
+def gen_poly1305_edges(g, tier):
+    """Poly1305 arithmetic edges.  With random keys and data the carries out of the 130-bit accumulator's limbs and the
+    final reduction are taken with negligible probability, so a kernel that drops one is never exposed: here the key
+    half r is a power of two, all-ones (after clamping) or tiny, s is 0 or all-ones, and the message blocks are
+    all-ones / almost all-ones / zero / one patterns in every mixture of up to 8 blocks, so that block products sit next
+    to 2^128 and 2^130 - 5."""
+    rs = [bytes([1] + [0] * 15), bytes([2] + [0] * 15), bytes([4] + [0] * 15), bytes([8] + [0] * 15), bytes([16] + [0] * 15),
+          bytes([0] * 4 + [4] + [0] * 11), bytes([0] * 8 + [4] + [0] * 7), bytes([0] * 12 + [4] + [0] * 3),
+          bytes([0xff] * 16), bytes([0xfc, 0xff, 0xff, 0x0f] * 4), bytes([3] + [0] * 15), bytes([5] + [0] * 15)]
+    ss = [bytes(16), bytes([0xff] * 16), bytes([0xfb] + [0xff] * 15)]
+    blocks = [bytes([0xff] * 16), bytes([0xfe] + [0xff] * 15), bytes(16), bytes([1] + [0] * 15), bytes([0xfb] + [0xff] * 15),
+              bytes([0xff] * 15 + [0x7f]), bytes([0] * 15 + [0x80])]
+    n = 0
+    for r in rs:
+        for s_ in ss:
+            combos = []
+            for b in blocks:
+                combos += [[b], [b, b], [bytes(16)] * 3 + [b] + [bytes(16)] * 3, [b] * 8]
+            for k in range(12 if tier == "quick" else 60):
+                combos.append([blocks[g.rng.below(len(blocks))] for _ in range(1 + g.rng.below(8))])
+            for cb in combos:
+                n += 1
+                if tier == "quick" and n % 3:
+                    continue
+                msg = b"".join(cb)
+                tail = [b"", b"", bytes([0xff] * 7), bytes([0xff] * 15), bytes([1])][n % 5]
+                m = msg + tail
+                g.add(C_NULL, 28, "POLY1305/edges", akey=r + s_, msg=m, hoff=0, hlen=len(m), tag=16)
+
+
 def gen_c02(g, tier):
+    gen_poly1305_edges(g, tier)
     for h in (1, 2, 3, 4, 5, 7, 13, 14, 15, 16, 17, 6, 12, 27, 24, 25, 26, 46, 28, 23, 47, 48):
         gen_byte_hash(g, tier, h)
     for h in range(34, 46):
